@@ -58,6 +58,29 @@ theorem values_slots_independent_of_leftovers (m : Matcher) (segs : List Seg) (p
 example : (getMatch demoMatcher [.const (b "/q/"), .param 0] (b "/q") [b "alice", b "secret"] 0).map (readSlots · 1)
     = some [[]] := by decide
 
+/-- **App.sendfiles is a transparent memo table.** When `compareConfig` compares every field the cached
+    entry depends on (regenerated fact, part of `theFacts.ok`), then after ANY sequence of earlier
+    `SendFile` calls of any requests (lookups, inserts, also the duplicate appends of requests that
+    missed at the same time) a call gets exactly the entry it would have built itself on a fresh app —
+    which is what the model's `sendFile` uses (`sfVal cfg`). -/
+theorem sendfile_store_transparent (m : SFMask) (hm : m.complete = true) (ops : List SFOp) (cfg : SFCfg) :
+    (SFStore.serve m (SFStore.run m [] ops) cfg).1 = sfVal cfg ∧ (SFStore.serve m [] cfg).1 = sfVal cfg := by
+  have wf0 : SFStore.WF [] := by intro e he; simp at he
+  exact ⟨(serve_transparent hm (run_wf hm ops wf0) cfg).1, (serve_transparent hm wf0 cfg).1⟩
+
+/-- … in particular for the comparison regenerated from the current sources. -/
+theorem sendfile_store_transparent_current (ops : List SFOp) (cfg : SFCfg) :
+    (SFStore.serve theFacts.sfMask (SFStore.run theFacts.sfMask [] ops) cfg).1 = sfVal cfg :=
+  (sendfile_store_transparent theFacts.sfMask (by decide) ops cfg).1
+
+/-- Sharpness (the refactoring that forgot `MaxAge`): after a call with `MaxAge: 3600` a call that differs
+    only in `MaxAge: 0` is handed the earlier call's entry — `Cache-Control: public, max-age=3600`. -/
+theorem sendfile_compare_without_maxAge_leaks :
+    (SFStore.serve ⟨true, true, true, true, true, false⟩
+        (SFStore.run ⟨true, true, true, true, true, false⟩ [] [.serve ⟨0, false, false, false, 0, 3600⟩])
+        ⟨0, false, false, false, 0, 0⟩).1.maxAge = 3600 ∧
+    (sfVal ⟨0, false, false, false, 0, 0⟩).maxAge = 0 := by decide
+
 /-- With the decoder's wipe in place, what the flash readers return is a function of the cookie
     alone: two slices with the same visible part and ANY leftovers in their spare capacity decode
     alike. -/
@@ -198,10 +221,12 @@ def refFacts : RFacts :=
     rTreePathHash := true, rIndexRoute := true, rIndexHandler := true, rMethodInt := true, rMatched := true,
     lRoute := true, lBind := true, lRedirect := true, lViewBind := true, lFlash := .reslice0, lFasthttp := true,
     dMessages := .reslice0, dStatus := true,
+    sfMask := ⟨true, true, true, true, true, true⟩, sfAllCompared := true,
     lc := { acquireResets := true, releaseBeforePut := true, handlerDefersRelease := true,
             redirectReleaseBeforePut := true, ctxReleaseReturnsRedirect := true, flashDecodeWipes := true,
             flashDropsOnError := true, errorHandlerDefersRelease := true, poolOpsConfined := true,
-            starWritesSlot0 := true, getMatchWritesBeforeRead := true, paramsReadsRouteSlots := true } }
+            starWritesSlot0 := true, getMatchWritesBeforeRead := true, paramsReadsRouteSlots := true,
+            sendFileStoresOwnConfig := true } }
 
 example : refFacts.ok = true := by decide
 
